@@ -372,7 +372,7 @@ func (f *Flow) addDerived(facts Facts, a *Atom) {
 	for depth := 0; depth < 5 && len(work) > 0; depth++ {
 		var next []*Atom
 		for _, x := range work {
-			for _, d := range f.A.expand(x) {
+			for _, d := range f.A.expandCtx(x, &sumCtx{facts: facts, assume: f.Assume}) {
 				if _, ok := facts[d.Key()]; ok {
 					continue
 				}
